@@ -1086,6 +1086,11 @@ class World:
             raise Skip()
         if not nice(self.dat(i)):
             raise Skip()
+        try:   # not every operator exists for every grid class on every backend
+            from pde.backends import get_backend
+            get_backend(backend).get_operator_info(o.grid, name)
+        except Exception:  # noqa: BLE001
+            raise Skip() from None
         out = None
         if d.get("out") is not None:
             j = self.rid(d["out"])
